@@ -8,6 +8,7 @@ From ReqV Require Import Model.Interim Proofs.InterimProofs.
 From ReqV Require Import Proofs.StreamWireTrailerProofs.
 From ReqV Require Import Model.TlsConn Proofs.TlsConnProofs.
 From ReqV Require Import Model.RespRead Model.DupLength Proofs.RespReadProofs.
+From ReqV Require Import Model.Download Proofs.DownloadProofs.
 Local Open Scope nat_scope.
 
 (* HTTP/1.1, Content-Length and chunked framing (every body, every chunk partition with any
@@ -67,6 +68,25 @@ Theorem C03_gzip_truncation_detected : forall (gunzip : bytes -> option bytes) h
             gz_result gunzip r = None.
 Proof. exact gzip_truncation_detected_thm. Qed.
 Print Assumptions C03_gzip_truncation_detected.
+
+(* ===================== downloads (the body saved to an output) =====================
+   closer = None: a plain io.Writer; Some close_failed: an io.Closer (a file) and whether its
+   Close fails.  A failed body copy fails the download whatever the output is and whatever
+   its Close returns; every cut of a Content-Length / chunked response is a failed download. *)
+Theorem C03_download_copy_error_stands : forall closer, download_failed true closer = true.
+Proof. exact copy_error_stands_thm. Qed.
+Print Assumptions C03_download_copy_error_stands.
+
+Theorem C03_h1_download_cut_fails : forall hdr fr W body tb k closer,
+  framed fr W body tb -> k < length (hdr ++ W) ->
+  h1_download (N.of_nat (length hdr)) fr (firstn k (hdr ++ W)) closer = None.
+Proof. exact h1_download_cut_fails_thm. Qed.
+Print Assumptions C03_h1_download_cut_fails.
+
+Example C03_download_overwritten_refuted :
+  download_failed_overwritten true (Some false) = false /\ download_failed true (Some false) = true /\
+  download_failed_overwritten true None = true.
+Proof. exact overwritten_refuted. Qed.
 
 (* ===================== reading the body through the Response more than once =====================
    State carried by the Response between calls (r.Err, r.body): any number of
